@@ -417,7 +417,8 @@ def pair_seconds(x, full):
 def a_items(tier):
     items = [('pairs', x, tier == 'thorough') for x in pair_firsts()]
     if tier == 'thorough':
-        deep = [(4, 2, SHAPES), (5, 1, SHAPES), (6, 1, SHAPES),
+        deep = [(4, 2, SHAPES), (5, 1, SHAPES),
+                (6, 1, ('S', 'SI', 'A0', 'A3', 'A600', 'AI')),
                 (7, 1, ('SI', 'A0', 'A3', 'A600'))]
     else:
         deep = [(4, 1, SHAPES), (5, 1, ('SI', 'A0', 'A3', 'A600', 'AI'))]
@@ -694,17 +695,16 @@ def _item(item):
 def b_configs(tier):
     """(config, preemption bound).  Quick: bound 2, except bound 1 for the
     3-process configurations of the array / structure wrappers and of the
-    'prop' / 'ctx' spellings and the reader / mixed scenarios; thorough: bound 3, except bound 2 for 3
-    processes x 2 rounds and for the 3-process 'prop' / 'ctx' spellings on
-    the array / structure wrappers."""
+    'prop' / 'ctx' spellings and the reader / mixed scenarios; thorough:
+    bound 3, except bound 2 for 3 processes x 2 rounds, for the 3-process
+    'prop' / 'ctx' spellings and for the 3-process negative control."""
     thorough = tier == 'thorough'
     out = []
     for kind in ('value', 'array', 'struct'):
         b2 = 3 if thorough else 2
         for scen in ('with', 'prop', 'ctx'):
-            main_cfg = kind == 'value' or scen == 'with'
             if thorough:
-                b3 = 3 if main_cfg else 2
+                b3 = 3 if scen == 'with' else 2
             else:
                 b3 = 2 if kind == 'value' and scen == 'with' else 1
             out.append((dict(kind=kind, scenario=scen, procs=2, rounds=2), b2))
@@ -712,7 +712,7 @@ def b_configs(tier):
             if thorough and scen == 'with':
                 out.append((dict(kind=kind, scenario=scen, procs=3,
                                  rounds=2), 2))
-        b3 = 3 if thorough else (2 if kind == 'value' else 1)
+        b3 = 2 if thorough or kind == 'value' else 1
         out.append((dict(kind=kind, scenario='bare', procs=2, rounds=1), b2))
         out.append((dict(kind=kind, scenario='bare', procs=3, rounds=1), b3))
         b3 = 3 if thorough else 1
